@@ -1,1 +1,842 @@
-fn main() { verif_common::machinery_error("engine not built yet"); }
+//! session_mc — explicit-state search on the real `pavex_session` implementation (C11, C12).
+//!
+//! A *state* is an event history. It is rebuilt by replaying the history on fresh real objects
+//! (`InMemorySessionStore`, `SessionStore`, `Session`, cookie `Processor`); the successor relation
+//! is "append one event". BFS with deduplication on a canonical observable state.
+//!
+//! # Why merging two histories with the same canonical state is sound
+//!
+//! The future behaviour of the real objects depends on (1) the store contents, (2) the cookies the
+//! client can present, (3) the fields of the open `Session` (id kind, server-state cell incl. its
+//! dirty marker, client-state cell incl. its dirty marker, invalidation flag) and (4) the
+//! configuration (fixed per search). The key contains:
+//!   * the contents of every store record, read from the real store, with ids renamed by their role
+//!     (current cookie, stale cookie, id the request came with, not-yet-disclosed id, unreferenced) —
+//!     session ids are opaque random UUIDs that the code only ever compares for equality, so any
+//!     bijective renaming preserves behaviour; records under ids that no cookie refers to can only
+//!     matter through a UUID collision, they are kept in the key as a multiset of contents;
+//!   * both cookies of the jar (renamed id + client map);
+//!   * for the open request: the server/client cells and the invalidation flag *as printed by the
+//!     real object's Debug impl* (variant names = dirty markers, maps in canonical order; the TTL is
+//!     dropped, see assumption below), the id kind (new / existing / renamed, a function of the
+//!     history), the side-effect-free client observations, and the complete reference-model state
+//!     (so everything the oracles depend on is in the key as well);
+//!   * the budget (request index, operations used in this request) — so equal keys have equal
+//!     remaining exploration depth. Self-loops (an operation that leaves the key unchanged, e.g. a
+//!     `get` on a loaded state) are executed and checked but not enqueued: their futures are a
+//!     subset of the parent's.
+//! If the Debug output cannot be parsed the whole (UUID-scrubbed) string goes into the key, which
+//! only makes it finer. What is *not* in the key: record deadlines. Within a run (seconds to minutes,
+//! TTL = 2 h) no record expires and `remaining_ttl < 0.8 * ttl` is never true, so no
+//! deadline-dependent branch can flip; this is stated as an assumption in the evidence.
+//!
+//! Order independence of the counts is *checked*: the search runs twice, the second time with the
+//! successor order reversed; states, transitions, the outcome histogram and the violation keys must
+//! be identical (a too-coarse key would make them depend on which history represents a state).
+mod model;
+mod real;
+mod replay;
+mod types;
+
+use replay::{Ctx, FinalMode, MwObs, NodeInfo, Outcome, RawFinal, ReplayOpts, Viol, replay};
+use serde_json::{Value, json};
+use std::collections::{BTreeMap, HashSet, VecDeque};
+use std::panic::AssertUnwindSafe;
+use std::sync::Mutex;
+use std::time::{Duration, Instant};
+use types::*;
+use verif_common::{machinery_error, Tier};
+
+static SYMMETRY: std::sync::atomic::AtomicBool = std::sync::atomic::AtomicBool::new(true);
+
+thread_local! {
+    static RT: tokio::runtime::Runtime = tokio::runtime::Builder::new_current_thread().build().expect("tokio runtime");
+}
+
+fn run(ctx: &Ctx, cfg: &Cfg, hist: &[Event], opts: &ReplayOpts<'_>) -> Result<Outcome, String> {
+    let r = std::panic::catch_unwind(AssertUnwindSafe(|| RT.with(|rt| rt.block_on(replay(ctx, cfg, hist, opts)))));
+    match r {
+        Ok(r) => r,
+        Err(p) => Err(format!("panic escaped the replay: {}", real::panic_message(p))),
+    }
+}
+
+fn h128(s: &str) -> u128 {
+    use std::hash::Hasher;
+    // two independent 64-bit SipHash-2-4 passes (fixed keys): a 128-bit fingerprint
+    #[allow(deprecated)]
+    let mut a = std::hash::SipHasher::new_with_keys(0x736d_635f_6b65_7931, 0x0123_4567_89ab_cdef);
+    #[allow(deprecated)]
+    let mut b = std::hash::SipHasher::new_with_keys(0xfeed_face_cafe_beef, 0x7365_7373_696f_6e32);
+    a.write(s.as_bytes());
+    b.write(s.as_bytes());
+    ((a.finish() as u128) << 64) | b.finish() as u128
+}
+
+fn with_budget(nb: u128, info: &NodeInfo) -> u128 {
+    nb ^ ((info.req_idx as u128) << 120) ^ ((info.ops_used as u128) << 112) ^ 0x5a5a
+}
+
+#[derive(Clone, Copy, PartialEq, Eq, Debug)]
+enum Mode {
+    C11,
+    C12,
+}
+
+struct Node {
+    hist: Vec<Event>,
+    info: NodeInfo,
+    nb: u128,
+}
+
+#[derive(Default, Clone)]
+struct Found {
+    viol: Option<Viol>,
+    case: Value,
+    len: usize,
+    count: u64,
+    configs: u64,
+}
+
+#[derive(Default, Clone)]
+struct Stats {
+    states: u64,
+    transitions: u64,
+    self_loops: u64,
+    violating_transitions: u64,
+    terminal_transitions: u64,
+    finalize_points: u64,
+    client_get_in_place: u64,
+    labels: BTreeMap<String, u64>,
+    tolerated: BTreeMap<String, u64>,
+    found: BTreeMap<String, Found>,
+    capped: bool,
+    /// all histories shorter than this were expanded
+    completed_len: usize,
+    max_len_seen: usize,
+    // C12
+    mw_calls: u64,
+    mw_hist: BTreeMap<String, u64>,
+    debug_checks: u64,
+    samples: Vec<Value>,
+}
+
+impl Stats {
+    fn merge(&mut self, o: &Stats) {
+        self.states += o.states;
+        self.transitions += o.transitions;
+        self.self_loops += o.self_loops;
+        self.violating_transitions += o.violating_transitions;
+        self.terminal_transitions += o.terminal_transitions;
+        self.finalize_points += o.finalize_points;
+        self.client_get_in_place += o.client_get_in_place;
+        self.mw_calls += o.mw_calls;
+        self.debug_checks += o.debug_checks;
+        for (k, v) in &o.labels {
+            *self.labels.entry(k.clone()).or_default() += v;
+        }
+        for (k, v) in &o.tolerated {
+            *self.tolerated.entry(k.clone()).or_default() += v;
+        }
+        for (k, v) in &o.mw_hist {
+            *self.mw_hist.entry(k.clone()).or_default() += v;
+        }
+        for (k, f) in &o.found {
+            let e = self.found.entry(k.clone()).or_default();
+            e.count += f.count;
+            e.configs += 1;
+            let better = e.viol.is_none()
+                || f.len < e.len
+                || (f.len == e.len && f.case.to_string() < e.case.to_string());
+            if better {
+                e.viol = f.viol.clone();
+                e.case = f.case.clone();
+                e.len = f.len;
+            }
+        }
+        self.capped |= o.capped;
+        self.completed_len = if self.max_len_seen == 0 && self.states == o.states { o.completed_len } else { self.completed_len.min(o.completed_len) };
+        self.max_len_seen = self.max_len_seen.max(o.max_len_seen);
+        if self.samples.len() < 6 {
+            self.samples.extend(o.samples.iter().take(1).cloned());
+        }
+    }
+
+    fn fingerprint(&self) -> String {
+        let keys: Vec<&String> = self.found.keys().collect();
+        format!(
+            "states={} transitions={} self_loops={} violating={} labels={:x} keys={:?} mw={} mwh={:x}",
+            self.states,
+            self.transitions,
+            self.self_loops,
+            self.violating_transitions,
+            h128(&format!("{:?}", self.labels)),
+            keys,
+            self.mw_calls,
+            h128(&format!("{:?}", self.mw_hist)),
+        )
+    }
+}
+
+fn case_json(mode: Mode, cfg: &Cfg, hist: &[Event]) -> Value {
+    json!({ "property": if mode == Mode::C11 { "C11" } else { "C12" }, "config": cfg.to_json(), "history": history_json(hist) })
+}
+
+fn children(info: &NodeInfo, bounds: (usize, usize), rev: bool) -> Vec<Event> {
+    let mut v = Vec::new();
+    if info.open {
+        if info.ops_used < bounds.1 {
+            // `client.get(k)` is evaluated in place: the side-effect-free client view (get(a), get(b),
+            // is_empty, is_invalidated) of every state is compared with the model when the state is
+            // produced, so a separate replay for these two self-loops would repeat the same calls.
+            v.extend(Op::all().into_iter().filter(|o| !matches!(o, Op::CGet(_))).map(Event::Op));
+        }
+        v.push(Event::Finalize);
+    } else if info.req_idx < bounds.0 {
+        if info.has_current {
+            v.push(Event::Begin(Present::Current));
+        }
+        if info.has_stale {
+            v.push(Event::Begin(Present::Stale));
+        }
+        v.push(Event::Begin(Present::NoCookie));
+    }
+    if rev {
+        v.reverse();
+    }
+    v
+}
+
+struct Processors {
+    map: BTreeMap<(Crypto, &'static str), pavex::cookie::Processor>,
+}
+
+impl Processors {
+    fn new(ctx: &Ctx) -> Processors {
+        let mut map = BTreeMap::new();
+        for c in Crypto::all() {
+            for n in COOKIE_NAMES {
+                map.insert((c, n), real::processor(c, n, &ctx.keys));
+            }
+        }
+        Processors { map }
+    }
+}
+
+fn crypto_class(will_e: bool, will_s: bool) -> &'static str {
+    if will_e {
+        "encrypts"
+    } else if will_s {
+        "signs"
+    } else {
+        "unprotected"
+    }
+}
+
+/// C12 oracle for one (cookie configuration, crypto configuration) at one finalize point.
+/// Returns (histogram label, violation).
+fn check_middleware(
+    cfg: &Cfg,
+    cc: &CookieCfg,
+    crypto: Crypto,
+    p: &pavex::cookie::Processor,
+    twin: &RawFinal,
+    mw: &MwObs,
+) -> (String, Option<Viol>) {
+    use real::{RawCookie, classify_cookie, name_value_of};
+    let will_e = p.will_encrypt(cc.name);
+    let will_s = p.will_sign(cc.name);
+    let built = match crypto {
+        Crypto::NoRules | Crypto::OtherNameOnly => (false, false),
+        Crypto::SignOnly | Crypto::EncryptThenSign => (false, true),
+        Crypto::EncryptOnly | Crypto::SignThenEncrypt => (true, false),
+    };
+    if (will_e, will_s) != built {
+        machinery_error(&format!("processor for {} reports will_encrypt={will_e} will_sign={will_s}, built as {built:?}", crypto.name()));
+    }
+    let class = crypto_class(will_e, will_s);
+    let v = |key: String, what: String| Some(Viol { key, what });
+    let session_cookies: Vec<_> = mw.attached.iter().filter(|c| c.name() == cc.name).collect();
+    let (kind, client_nonempty) = match twin {
+        RawFinal::Ok(c) => match classify_cookie(c.as_ref()) {
+            RawCookie::None => ("none", false),
+            RawCookie::Removal => ("removal", false),
+            RawCookie::Set { client, .. } => ("set", !client.is_empty()),
+            RawCookie::Garbled(_) => ("garbled", true),
+        },
+        RawFinal::Err(_) => ("finalize-error", false),
+        RawFinal::Panic(_) => ("finalize-panic", false),
+    };
+    let state = format!("cookie={kind}:client-{}:processor-{class}", if client_nonempty { "nonempty" } else { "empty" });
+    // what the property demands
+    let expected: &str = match kind {
+        "finalize-error" => "err:SyncErr-or-other",
+        "finalize-panic" => "panic",
+        "none" => "ok-without-cookie",
+        _ => {
+            if client_nonempty && !will_e {
+                "err:EncryptionRequired"
+            } else if !(will_e || will_s) {
+                "err:CryptoRequired"
+            } else {
+                "ok-with-cookie"
+            }
+        }
+    };
+    let label = format!("{state}=>{expected}");
+    let observed = format!("{} with {} session cookie(s) attached", mw.result, session_cookies.len());
+    match expected {
+        "panic" | "err:SyncErr-or-other" => {
+            if !session_cookies.is_empty() {
+                return (label, v(format!("mw:cookie-attached-although-finalize-failed:{state}"), format!("finalize_session: {observed}")));
+            }
+            if mw.result == "ok" {
+                return (label, v(format!("mw:ok-although-finalize-failed:{state}"), format!("finalize_session: {observed}")));
+            }
+        }
+        "ok-without-cookie" => {
+            if mw.result != "ok" || !mw.attached.is_empty() {
+                return (label, v(format!("mw:expected-ok-without-cookie:{state}"), format!("finalize_session: {observed}")));
+            }
+        }
+        "err:EncryptionRequired" | "err:CryptoRequired" => {
+            if !session_cookies.is_empty() {
+                return (
+                    label,
+                    v(
+                        format!("mw:unprotected-cookie-attached:{state}"),
+                        format!("finalize_session attached the session cookie although the processor {class} it: {observed}"),
+                    ),
+                );
+            }
+            if !mw.result.starts_with("err:") {
+                return (label, v(format!("mw:no-error-and-no-cookie:{state}"), format!("expected {expected}; finalize_session: {observed}")));
+            }
+            if !mw.result.contains(&expected[4..]) {
+                return (label, v(format!("mw:wrong-error:{state}"), format!("expected {expected}; finalize_session: {observed}")));
+            }
+        }
+        _ => {
+            // ok-with-cookie
+            if mw.result != "ok" || session_cookies.len() != 1 || mw.attached.len() != 1 || mw.headers.len() != 1 {
+                return (
+                    label,
+                    v(format!("mw:expected-ok-with-cookie:{state}"), format!("finalize_session: {observed}, {} header(s)", mw.headers.len())),
+                );
+            }
+            let c = session_cookies[0];
+            let got = classify_cookie(Some(c));
+            let twin_c = match twin {
+                RawFinal::Ok(Some(t)) => classify_cookie(Some(t)),
+                _ => RawCookie::None,
+            };
+            let same_payload = match (&got, &twin_c) {
+                (RawCookie::Removal, RawCookie::Removal) => true,
+                (RawCookie::Set { client: a, .. }, RawCookie::Set { client: b, .. }) => a == b,
+                _ => false,
+            };
+            if !same_payload {
+                return (label, v(format!("mw:cookie-payload-differs:{state}"), format!("attached {got:?}, Session::finalize gives {twin_c:?}")));
+            }
+            let attr = |name: &str, ok: bool, detail: String| -> Option<Viol> {
+                if ok { None } else { Some(Viol { key: format!("attr:{name}:cookie={kind}"), what: detail }) }
+            };
+            let h = &mw.headers[0];
+            let mut checks: Vec<Option<Viol>> = vec![
+                attr("name", c.name() == cc.name, format!("name {:?}, configured {:?}", c.name(), cc.name)),
+                attr("domain", c.domain() == cc.domain, format!("domain {:?}, configured {:?}", c.domain(), cc.domain)),
+                attr("path", c.path() == cc.path, format!("path {:?}, configured {:?}", c.path(), cc.path)),
+                attr("wire-name", h.starts_with(&format!("{}=", cc.name)), format!("Set-Cookie header {h:?} does not start with the configured name")),
+                attr(
+                    "wire-domain",
+                    h.contains("; Domain=") == cc.domain.is_some() && cc.domain.map(|d| h.contains(&format!("; Domain={d}"))).unwrap_or(true),
+                    format!("Set-Cookie header {h:?}, configured domain {:?}", cc.domain),
+                ),
+                attr(
+                    "wire-path",
+                    h.contains("; Path=") == cc.path.is_some() && cc.path.map(|d| h.contains(&format!("; Path={d}"))).unwrap_or(true),
+                    format!("Set-Cookie header {h:?}, configured path {:?}", cc.path),
+                ),
+            ];
+            if kind == "set" {
+                let ss = real::same_site_of(cc.same_site);
+                let want_max_age = if cfg.persistent { Some(real::TTL_SECS as i64) } else { None };
+                checks.extend([
+                    attr("same_site", c.same_site() == ss, format!("SameSite {:?}, configured {:?}", c.same_site(), ss)),
+                    attr("secure", c.secure().unwrap_or(false) == cc.secure, format!("Secure {:?}, configured {}", c.secure(), cc.secure)),
+                    attr("http_only", c.http_only().unwrap_or(false) == cc.http_only, format!("HttpOnly {:?}, configured {}", c.http_only(), cc.http_only)),
+                    attr(
+                        "max_age",
+                        c.max_age().map(|d| d.as_secs()) == want_max_age,
+                        format!("Max-Age {:?}, expected {:?} (kind {}, ttl {}s)", c.max_age(), want_max_age, if cfg.persistent { "persistent" } else { "session" }, real::TTL_SECS),
+                    ),
+                    attr("expires", c.expires_datetime().is_none(), format!("Expires {:?} on a non-removal cookie", c.expires_datetime())),
+                    attr("wire-http_only", h.contains("; HttpOnly") == cc.http_only, format!("Set-Cookie header {h:?}, configured http_only {}", cc.http_only)),
+                    attr(
+                        "wire-secure",
+                        h.contains("; Secure") == (cc.secure || cc.same_site == 1),
+                        format!("Set-Cookie header {h:?}, configured secure {} same_site code {}", cc.secure, cc.same_site),
+                    ),
+                    attr(
+                        "wire-max_age",
+                        h.contains("; Max-Age=") == cfg.persistent && (!cfg.persistent || h.contains(&format!("; Max-Age={}", real::TTL_SECS))),
+                        format!("Set-Cookie header {h:?}, persistent {}", cfg.persistent),
+                    ),
+                    attr(
+                        "wire-same_site",
+                        match ss {
+                            None => !h.contains("; SameSite="),
+                            Some(s) => h.contains(&format!("; SameSite={s}")),
+                        },
+                        format!("Set-Cookie header {h:?}, configured SameSite {ss:?}"),
+                    ),
+                ]);
+                // the protection is real: plaintext id absent when encrypted, round trip works,
+                // a tampered value is rejected
+                if let RawCookie::Set { id, .. } = &got {
+                    if will_e {
+                        checks.push(attr("wire-plaintext-id", !h.to_ascii_lowercase().contains(id.as_str()), "encrypted Set-Cookie header contains the session id in clear".to_string()));
+                    }
+                    let nv = name_value_of(h);
+                    let back = pavex::cookie::RequestCookies::parse_header(&nv, p).ok().and_then(|rc| rc.get(cc.name).map(|c| c.value().to_string()));
+                    checks.push(attr("wire-roundtrip", back.as_deref() == Some(c.value()), format!("processed cookie does not decode back to its value: {back:?}")));
+                    if let Some((n, val)) = nv.split_once('=')
+                        && val.len() > 8
+                    {
+                        let mid = val.len() / 2;
+                        let mut bytes = val.as_bytes().to_vec();
+                        bytes[mid] = if bytes[mid] == b'A' { b'B' } else { b'A' };
+                        let tampered = format!("{n}={}", String::from_utf8_lossy(&bytes));
+                        let accepted = pavex::cookie::RequestCookies::parse_header(&tampered, p).ok().and_then(|rc| rc.get(cc.name).map(|c| c.value().to_string()));
+                        checks.push(attr("wire-tamper", accepted.is_none(), format!("a tampered cookie value was accepted as {accepted:?}")));
+                    }
+                }
+            } else {
+                checks.push(attr("removal-shape", real::is_removal(c), "removal cookie is not an expired empty cookie".to_string()));
+            }
+            if let Some(bad) = checks.into_iter().flatten().next() {
+                return (label, Some(bad));
+            }
+        }
+    }
+    (label, None)
+}
+
+fn product_at_finalize_point(ctx: &Ctx, procs: &Processors, cfg: &Cfg, hist: &[Event], stats: &mut Stats, cookie_cfgs: &[CookieCfg]) {
+    let no_debug = NodeInfo::default();
+    for cc in cookie_cfgs {
+        let twin = run(
+            ctx,
+            cfg,
+            hist,
+            &ReplayOpts { cookie: cc, oracles: false, narrative: false, final_mode: FinalMode::Direct, leak_check: false, hint: Some(&no_debug), symmetry: SYMMETRY.load(std::sync::atomic::Ordering::Relaxed) },
+        )
+        .unwrap_or_else(|e| machinery_error(&format!("C12 twin replay failed: {e} ({:?})", history_json(hist))));
+        let Some(raw) = twin.raw_final else { machinery_error("C12 twin replay produced no finalize observation") };
+        for crypto in Crypto::all() {
+            let p = &procs.map[&(crypto, cc.name)];
+            let out = run(
+                ctx,
+                cfg,
+                hist,
+                &ReplayOpts { cookie: cc, oracles: false, narrative: false, final_mode: FinalMode::Middleware(p), leak_check: false, hint: Some(&no_debug), symmetry: SYMMETRY.load(std::sync::atomic::Ordering::Relaxed) },
+            )
+            .unwrap_or_else(|e| machinery_error(&format!("C12 middleware replay failed: {e}")));
+            let Some(mw) = out.mw else { machinery_error("C12 middleware replay produced no observation") };
+            stats.mw_calls += 1;
+            let (label, viol) = check_middleware(cfg, cc, crypto, p, &raw, &mw);
+            *stats.mw_hist.entry(label).or_default() += 1;
+            if let Some(vl) = viol {
+                let f = stats.found.entry(vl.key.clone()).or_default();
+                f.count += 1;
+                if f.viol.is_none() || hist.len() < f.len {
+                    let mut case = case_json(Mode::C12, cfg, hist);
+                    case["cookie_cfg"] = cc.to_json();
+                    case["crypto"] = json!(crypto.name());
+                    f.viol = Some(vl);
+                    f.case = case;
+                    f.len = hist.len();
+                }
+            }
+        }
+    }
+}
+
+#[allow(clippy::too_many_arguments)]
+fn bfs(ctx: &Ctx, procs: &Processors, cfg: &Cfg, bounds: (usize, usize), mode: Mode, deadline: Instant, rev: bool, cookie_cfgs: &[CookieCfg]) -> Stats {
+    let default_cookie = CookieCfg::default_cfg();
+    let opts = ReplayOpts { cookie: &default_cookie, oracles: mode == Mode::C11, narrative: false, final_mode: FinalMode::Direct, leak_check: mode == Mode::C12, hint: None, symmetry: SYMMETRY.load(std::sync::atomic::Ordering::Relaxed) };
+    let mut stats = Stats::default();
+    let mut visited: HashSet<u128> = HashSet::new();
+    let mut finalized: HashSet<u128> = HashSet::new();
+    let mut queue: VecDeque<Node> = VecDeque::new();
+    let root = run(ctx, cfg, &[], &opts).unwrap_or_else(|e| machinery_error(&format!("root replay failed: {e}")));
+    visited.insert(with_budget(h128(&root.state_key), &root.info));
+    stats.states = 1;
+    queue.push_back(Node { hist: vec![], info: root.info.clone(), nb: h128(&root.state_key) });
+    let mut n_expanded = 0u64;
+    while let Some(node) = queue.pop_front() {
+        if n_expanded % 64 == 0 && Instant::now() > deadline {
+            stats.capped = true;
+            stats.completed_len = node.hist.len();
+            return stats;
+        }
+        n_expanded += 1;
+        stats.completed_len = node.hist.len();
+        if node.info.open && node.info.ops_used < bounds.1 {
+            stats.client_get_in_place += 2;
+        }
+        let opts = ReplayOpts { cookie: &default_cookie, oracles: mode == Mode::C11, narrative: false, final_mode: FinalMode::Direct, leak_check: mode == Mode::C12, hint: Some(&node.info), symmetry: SYMMETRY.load(std::sync::atomic::Ordering::Relaxed) };
+        for ev in children(&node.info, bounds, rev) {
+            let mut h = node.hist.clone();
+            h.push(ev);
+            let out = run(ctx, cfg, &h, &opts).unwrap_or_else(|e| {
+                machinery_error(&format!("replay failed: {e}; config {}; history {}", cfg.short(), history_json(&h)))
+            });
+            stats.transitions += 1;
+            stats.max_len_seen = stats.max_len_seen.max(h.len());
+            *stats.labels.entry(out.label.clone()).or_default() += 1;
+            for t in &out.tolerated {
+                let n = stats.tolerated.entry(t.to_string()).or_default();
+                *n += 1;
+                if *n <= 3 && std::env::var_os("SESSION_MC_TRACE_TOLERATED").is_some() {
+                    eprintln!("TOLERATED {t} under {}: {}", cfg.short(), history_json(&h));
+                }
+            }
+            if mode == Mode::C12 {
+                stats.debug_checks += 1;
+            }
+            if stats.samples.is_empty() && h.len() >= 6 && out.violations.is_empty() {
+                stats.samples.push(json!({"config": cfg.short(), "history": history_json(&h), "last_outcome": out.label, "canonical_state": out.state_key}));
+            }
+            if ev == Event::Finalize {
+                stats.finalize_points += 1;
+                if mode == Mode::C12 && finalized.insert(node.nb) {
+                    product_at_finalize_point(ctx, procs, cfg, &h, &mut stats, cookie_cfgs);
+                }
+            }
+            if !out.violations.is_empty() {
+                stats.violating_transitions += 1;
+                for vl in out.violations {
+                    let f = stats.found.entry(vl.key.clone()).or_default();
+                    f.count += 1;
+                    if f.viol.is_none() || h.len() < f.len || (h.len() == f.len && history_json(&h).to_string() < f.case["history"].to_string()) {
+                        f.viol = Some(vl);
+                        f.case = case_json(mode, cfg, &h);
+                        f.len = h.len();
+                    }
+                }
+                continue;
+            }
+            if out.terminal {
+                stats.terminal_transitions += 1;
+                continue;
+            }
+            let nb = h128(&out.state_key);
+            if nb == node.nb {
+                stats.self_loops += 1;
+                continue;
+            }
+            let key = with_budget(nb, &out.info);
+            if visited.insert(key) {
+                stats.states += 1;
+                queue.push_back(Node { hist: h, info: out.info, nb });
+            }
+        }
+    }
+    stats.completed_len = bounds.0 * (bounds.1 + 2) + 1;
+    stats
+}
+
+fn run_all(ctx: &Ctx, procs: &Processors, bounds: (usize, usize), mode: Mode, deadline: Instant, rev: bool, seed: i64, cookie_cfgs: &[CookieCfg]) -> Stats {
+    let mut cfgs = Cfg::all();
+    verif_common::rotate_by_seed(&mut cfgs, seed);
+    let queue = Mutex::new(cfgs);
+    let results: Mutex<Vec<(Cfg, Stats)>> = Mutex::new(Vec::new());
+    let threads = std::thread::available_parallelism().map(|n| n.get()).unwrap_or(4).min(32);
+    std::thread::scope(|sc| {
+        for _ in 0..threads {
+            sc.spawn(|| {
+                loop {
+                    let Some(cfg) = queue.lock().unwrap().pop() else { break };
+                    let st = bfs(ctx, procs, &cfg, bounds, mode, deadline, rev, cookie_cfgs);
+                    results.lock().unwrap().push((cfg, st));
+                }
+            });
+        }
+    });
+    let mut results = results.into_inner().unwrap();
+    results.sort_by_key(|r| r.0);
+    let mut total = Stats::default();
+    let mut first = true;
+    for (_, st) in &results {
+        total.merge(st);
+        if first {
+            total.completed_len = st.completed_len;
+            first = false;
+        }
+    }
+    total
+}
+
+fn do_replay(ctx: &Ctx, procs: &Processors, mode: Mode, path: &std::path::Path) -> i32 {
+    let case = verif_common::load_replay(path);
+    let cfg = case.get("config").and_then(Cfg::from_json).unwrap_or_else(|| machinery_error("replay: bad config"));
+    let hist = case.get("history").and_then(history_from_json).unwrap_or_else(|| machinery_error("replay: bad history"));
+    println!("replaying {} under {}", history_json(&hist), cfg.short());
+    if let (Some(cc), Some(cr)) = (case.get("cookie_cfg").and_then(CookieCfg::from_json), case.get("crypto").and_then(|c| c.as_str()).and_then(Crypto::parse)) {
+        let twin = run(ctx, &cfg, &hist, &ReplayOpts { cookie: &cc, oracles: false, narrative: false, final_mode: FinalMode::Direct, leak_check: false, hint: None, symmetry: SYMMETRY.load(std::sync::atomic::Ordering::Relaxed) })
+            .unwrap_or_else(|e| machinery_error(&e));
+        let p = real::processor(cr, cc.name, &ctx.keys);
+        let out = run(ctx, &cfg, &hist, &ReplayOpts { cookie: &cc, oracles: false, narrative: false, final_mode: FinalMode::Middleware(&p), leak_check: false, hint: None, symmetry: SYMMETRY.load(std::sync::atomic::Ordering::Relaxed) })
+            .unwrap_or_else(|e| machinery_error(&e));
+        let mw = out.mw.unwrap_or_else(|| machinery_error("no middleware observation"));
+        let raw = twin.raw_final.unwrap_or_else(|| machinery_error("no finalize observation"));
+        let (label, viol) = check_middleware(&cfg, &cc, cr, &p, &raw, &mw);
+        println!("cookie config {}, crypto {}", cc.to_json(), cr.name());
+        println!("Session::finalize gives {:?}", real::classify_cookie(match &raw { RawFinal::Ok(c) => c.as_ref(), _ => None }));
+        println!("finalize_session: {} ; headers {:?}", mw.result, mw.headers);
+        println!("expectation class: {label}");
+        return match viol {
+            Some(v) => {
+                println!("STILL VIOLATES [{}]: {}", v.key, v.what);
+                1
+            }
+            None => {
+                println!("no violation");
+                0
+            }
+        };
+    }
+    let _ = procs;
+    let dc = CookieCfg::default_cfg();
+    let out = run(ctx, &cfg, &hist, &ReplayOpts { cookie: &dc, oracles: mode == Mode::C11, narrative: true, final_mode: FinalMode::Direct, leak_check: mode == Mode::C12, hint: None, symmetry: SYMMETRY.load(std::sync::atomic::Ordering::Relaxed) })
+        .unwrap_or_else(|e| machinery_error(&format!("replay: {e}")));
+    for l in &out.narrative {
+        println!("  {l}");
+    }
+    if out.violations.is_empty() {
+        println!("no violation (last outcome: {})", out.label);
+        0
+    } else {
+        for v in &out.violations {
+            println!("STILL VIOLATES [{}]: {}", v.key, v.what);
+        }
+        1
+    }
+}
+
+fn main() {
+    let args = verif_common::Args::parse();
+    let mode = match args.property.as_str() {
+        "C11" => Mode::C11,
+        "C12" => Mode::C12,
+        other => machinery_error(&format!("session_mc serves C11 and C12, not {other:?}")),
+    };
+    std::panic::set_hook(Box::new(|_| {}));
+    if args.extra("symmetry") == Some("off") {
+        SYMMETRY.store(false, std::sync::atomic::Ordering::Relaxed);
+    }
+    let ctx = Ctx::new();
+    let procs = Processors::new(&ctx);
+    if let Some(p) = &args.replay {
+        std::process::exit(do_replay(&ctx, &procs, mode, p));
+    }
+    let mut rep = verif_common::Reporter::from_args(&args);
+    let started = Instant::now();
+    let all_cookie_cfgs = CookieCfg::all();
+    let num = |k: &str| args.extra(k).and_then(|v| v.parse::<usize>().ok());
+    // bounds: (requests, operations per request)
+    let boxes: Vec<(usize, usize)> = match (num("requests"), num("ops")) {
+        (Some(r), Some(o)) => vec![(r, o)],
+        _ => match (mode, args.tier) {
+            // the first box is searched twice (order-independence check), the others once
+            (Mode::C11, Tier::Quick) => vec![(2, 2), (2, 3)],
+            (Mode::C11, Tier::Thorough) => vec![(2, 3), (2, 4), (3, 3), (3, 4)],
+            (Mode::C12, Tier::Quick) => vec![(2, 1), (2, 2), (1, 2)],
+            (Mode::C12, Tier::Thorough) => vec![(2, 1), (1, 3), (2, 2), (2, 3), (3, 3)],
+        },
+    };
+    // C12 boxes that only run the search with the Debug-leak oracle (no middleware product)
+    let leak_only: Vec<(usize, usize)> = match (mode, args.tier, num("requests")) {
+        (Mode::C12, Tier::Quick, None) => vec![(2, 2)],
+        (Mode::C12, Tier::Thorough, None) => vec![(3, 3)],
+        _ => vec![],
+    };
+    let budget = Duration::from_secs(num("budget-s").map(|s| s as u64).unwrap_or(if args.tier == Tier::Quick { 50 } else { 17 * 60 }));
+    let deadline = started + budget;
+
+    // 1. determinism / order independence on the first box: natural order vs reversed order
+    let first = boxes[0];
+    let t0 = Instant::now();
+    let a = run_all(&ctx, &procs, first, mode, deadline, false, args.seed, &all_cookie_cfgs);
+    let t_first = t0.elapsed().as_secs_f64();
+    let mut determinism = json!("skipped: first box hit the time cap");
+    if !a.capped {
+        // the second run only needs the search itself; the C12 product is deterministic per
+        // finalize point and is included as well unless time is short
+        let light: Vec<CookieCfg> = if mode == Mode::C12 && t_first * 2.2 > budget.as_secs_f64() { vec![CookieCfg::default_cfg()] } else { all_cookie_cfgs.clone() };
+        let b = run_all(&ctx, &procs, first, mode, started + budget * 3, true, args.seed + 7, &light);
+        let cmp = |s: &Stats| {
+            if light.len() == all_cookie_cfgs.len() {
+                s.fingerprint()
+            } else {
+                format!("states={} transitions={} labels={:x}", s.states, s.transitions, h128(&format!("{:?}", s.labels)))
+            }
+        };
+        if cmp(&a) != cmp(&b) {
+            machinery_error(&format!("nondeterministic search: run 1 [{}] vs run 2 (reversed successor order) [{}]", cmp(&a), cmp(&b)));
+        }
+        determinism = json!({"runs": 2, "second_run": "reversed successor order, rotated configuration order", "identical": true, "compared": cmp(&a)});
+    }
+    println!(
+        "box {:?}: states={} transitions={} finalize_points={} violating_transitions={} mw_calls={} capped={} wall={:.1}s",
+        first, a.states, a.transitions, a.finalize_points, a.violating_transitions, a.mw_calls, a.capped, t_first
+    );
+    // 2. larger boxes (thorough), one after the other while time remains
+    let mut best = a.clone();
+    let mut best_box = first;
+    let (mut agg_mw_calls, mut agg_debug, mut agg_mw_hist) = (a.mw_calls, a.debug_checks, a.mw_hist.clone());
+    let (mut best_search, mut best_search_box) = (a.clone(), first);
+    let mut completed_boxes = if a.capped { vec![] } else { vec![json!({"requests": first.0, "ops_per_request": first.1, "states": a.states, "transitions": a.transitions, "wall_s": t_first})] };
+    let mut partial: Option<Value> = None;
+    let mut all_found = a.found.clone();
+    for bx in boxes.iter().skip(1) {
+        if Instant::now() + Duration::from_secs(if args.tier == Tier::Quick { 6 } else { 20 }) > deadline {
+            break;
+        }
+        let t = Instant::now();
+        let product_cfgs: &[CookieCfg] = if leak_only.contains(bx) { &[] } else { &all_cookie_cfgs };
+        let s = run_all(&ctx, &procs, *bx, mode, deadline, false, args.seed, product_cfgs);
+        let w = t.elapsed().as_secs_f64();
+        println!(
+            "box {:?}: states={} transitions={} finalize_points={} violating_transitions={} mw_calls={} capped={} wall={:.1}s",
+            bx, s.states, s.transitions, s.finalize_points, s.violating_transitions, s.mw_calls, s.capped, w
+        );
+        for (k, f) in &s.found {
+            all_found.entry(k.clone()).or_insert_with(|| f.clone());
+        }
+        if s.capped {
+            partial = Some(json!({"requests": bx.0, "ops_per_request": bx.1, "states_so_far": s.states, "transitions_so_far": s.transitions,
+                "all_histories_shorter_than_this_many_events_expanded_in_every_configuration": s.completed_len, "wall_s": w}));
+            if s.transitions > best.transitions {
+                // keep the complete box as the headline, report the partial one separately
+            }
+            break;
+        }
+        completed_boxes.push(json!({"requests": bx.0, "ops_per_request": bx.1, "states": s.states, "transitions": s.transitions, "wall_s": w,
+            "middleware_calls": s.mw_calls, "debug_outputs_checked": s.debug_checks}));
+        agg_mw_calls += s.mw_calls;
+        agg_debug += s.debug_checks;
+        for (k, v) in &s.mw_hist {
+            *agg_mw_hist.entry(k.clone()).or_default() += v;
+        }
+        if s.transitions > best_search.transitions {
+            best_search = s.clone();
+            best_search_box = *bx;
+        }
+        if s.transitions + s.mw_calls > best.transitions + best.mw_calls {
+            best = s;
+            best_box = *bx;
+        }
+    }
+
+    // 3. report violations (re-executed once each; must reproduce with the same key)
+    let dc = CookieCfg::default_cfg();
+    for (key, f) in &all_found {
+        let Some(v) = &f.viol else { continue };
+        let cfg = Cfg::from_json(&f.case["config"]).unwrap();
+        let hist = history_from_json(&f.case["history"]).unwrap();
+        let reproduced = if let (Some(cc), Some(cr)) = (f.case.get("cookie_cfg").and_then(CookieCfg::from_json), f.case.get("crypto").and_then(|c| c.as_str()).and_then(Crypto::parse)) {
+            let twin = run(&ctx, &cfg, &hist, &ReplayOpts { cookie: &cc, oracles: false, narrative: false, final_mode: FinalMode::Direct, leak_check: false, hint: None, symmetry: SYMMETRY.load(std::sync::atomic::Ordering::Relaxed) }).unwrap_or_else(|e| machinery_error(&e));
+            let p = &procs.map[&(cr, cc.name)];
+            let out = run(&ctx, &cfg, &hist, &ReplayOpts { cookie: &cc, oracles: false, narrative: false, final_mode: FinalMode::Middleware(p), leak_check: false, hint: None, symmetry: SYMMETRY.load(std::sync::atomic::Ordering::Relaxed) }).unwrap_or_else(|e| machinery_error(&e));
+            let (_, viol) = check_middleware(&cfg, &cc, cr, p, &twin.raw_final.unwrap(), &out.mw.unwrap());
+            viol.map(|x| x.key == *key).unwrap_or(false)
+        } else {
+            let out = run(&ctx, &cfg, &hist, &ReplayOpts { cookie: &dc, oracles: mode == Mode::C11, narrative: false, final_mode: FinalMode::Direct, leak_check: mode == Mode::C12, hint: None, symmetry: SYMMETRY.load(std::sync::atomic::Ordering::Relaxed) })
+                .unwrap_or_else(|e| machinery_error(&format!("re-execution failed: {e}")));
+            out.violations.iter().any(|x| x.key == *key)
+        };
+        if !reproduced {
+            machinery_error(&format!("nondeterministic verdict: {key} did not reproduce on re-execution of {}", f.case));
+        }
+        let what = format!(
+            "{} | minimal history ({} events) under {}: {} | {} violating transition(s) in the box where it was first seen",
+            v.what,
+            hist.len(),
+            cfg.short(),
+            hist.iter().map(|e| e.to_string()).collect::<Vec<_>>().join(" ; "),
+            f.count
+        );
+        rep.violation(key, &what, f.case.clone());
+    }
+
+    // 4. evidence
+    if mode == Mode::C12 {
+        // headline search counts come from the largest completed search; middleware counts are totals
+        best = best_search.clone();
+        best_box = best_search_box;
+        best.mw_calls = agg_mw_calls;
+        best.debug_checks = agg_debug;
+        best.mw_hist = agg_mw_hist.clone();
+    }
+    let distinct_outcomes = best.labels.len();
+    let top_labels: BTreeMap<&String, &u64> = best.labels.iter().collect();
+    let alphabet = "events: begin[{current,stale,no} cookie] | 23 session operations (server insert(k,v)/remove(k)/get(k) for k in {a,b}, v in {1,2}; clear; delete; force_load; sync; cycle_id; invalidate; client insert/remove/get/clear) | finalize";
+    let rule = match mode {
+        Mode::C11 => format!(
+            "{alphabet}. Bound: every history with <= {} requests x <= {} operations per request, for all 32 configurations (ServerStateCreation x MissingServerState x TtlExtensionTrigger x threshold{{None,0.8}} x cookie kind). BFS over histories replayed on fresh real objects, dedup on the canonical observable state (store, cookie jar, open-session cells, model state, budget). Oracle per transition: (a) reference model predicts every return value and the side-effect-free client view; at finalize: Ok expected, cookie kind/id/client map, store contents vs model (content differences are violations, existence of *empty* records is adopted unless a probe shows an effect), and probe requests presenting the current and the stale cookie must observe exactly the model's client/server key-values ((b) carry-over, (c) invalidate, (d) cycle_id). A transition is non-trivial when its outcome label (operation, server-state kind before/after, return value / cookie kind / store calls) is distinct; distinct_nontrivial counts distinct labels.",
+            best_box.0, best_box.1
+        ),
+        Mode::C12 => format!(
+            "{alphabet}. Same search as C11 (largest completed: <= {} requests x <= {} ops; see completed_boxes for which bounds include the middleware product), 32 configurations. At every distinct finalize point the history is replayed for each of {} cookie configurations (name x domain x path x SameSite{{unset,None,Lax,Strict}} x secure x http_only; kind comes from the 32) x 6 crypto configurations (none, sign, encrypt, sign+encrypt, encrypt+sign, rules for other names) and the real finalize_session is called; a twin replay with Session::finalize gives the cookie kind and client-state emptiness. Oracle: cookie attached only if processor signs or encrypts, and encrypts when client state is non-empty; otherwise Err and no session cookie; attributes (struct and Set-Cookie header) equal the configuration, max-age = TTL iff persistent; encrypted header has no plaintext id, decodes back, tampered value rejected. In every visited state format!(\"{{:?}}\", session) contains no current/earlier session id (ids revealed later by the cookie are checked against all earlier Debug outputs of that request) and no UUID-shaped token. distinct_nontrivial counts distinct (cookie kind, client emptiness, processor class => expected outcome) classes hit plus distinct search outcome labels.",
+            best_box.0, best_box.1, all_cookie_cfgs.len()
+        ),
+    };
+    let evaluations = if mode == Mode::C11 { best.transitions } else { best.mw_calls + best.debug_checks };
+    let distinct = if mode == Mode::C11 { distinct_outcomes } else { best.mw_hist.len() + distinct_outcomes };
+    let mut samples = best.samples.clone();
+    for f in all_found.values().take(3) {
+        samples.push(json!({"violating_case": f.case, "key": f.viol.as_ref().map(|v| v.key.clone())}));
+    }
+    let coverage = json!({
+        "states": best.states,
+        "transitions": best.transitions,
+        "traces_validated_against_impl": best.transitions + best.mw_calls * 1,
+        "samples": samples,
+        "evaluations": evaluations,
+        "distinct_nontrivial": distinct,
+        "rule": rule,
+        "exhaustive": !best.capped && completed_boxes.iter().any(|b| b["requests"] == json!(best_box.0) && b["ops_per_request"] == json!(best_box.1)),
+        "bound_completed": {"requests": best_box.0, "ops_per_request": best_box.1, "configurations": 32},
+        "completed_boxes": completed_boxes,
+        "partial_box_capped_by_time": partial,
+        "self_loop_transitions": best.self_loops,
+        "client_get_transitions_evaluated_in_place": best.client_get_in_place,
+        "violating_transitions_pruned": best.violating_transitions,
+        "terminal_tolerated_transitions": best.terminal_transitions,
+        "finalize_points": best.finalize_points,
+        "distinct_observable_outcomes": distinct_outcomes,
+        "outcome_histogram": top_labels,
+        "tolerated": best.tolerated,
+        "middleware_calls": best.mw_calls,
+        "middleware_outcome_histogram": best.mw_hist,
+        "debug_outputs_checked": best.debug_checks,
+        "determinism_check": determinism,
+        "violation_counts_first_box": all_found.iter().map(|(k, f)| (k.clone(), json!({"violating_transitions": f.count, "configurations": f.configs}))).collect::<BTreeMap<_, _>>(),
+    });
+    let code = rep.finish(
+        "model_checking",
+        coverage,
+        &[
+            "the in-memory store stands for the SessionStorageBackend contract (create fails on duplicates, update/update_ttl/delete/change_id fail on unknown ids)",
+            "no record expires and remaining_ttl < 0.8*ttl never holds during a run (TTL 2h, run < 20 min): deadlines are not part of the dedup key",
+            "session ids are only compared for equality (renaming by role is behaviour preserving); UUID collisions are ignored",
+            "the client presents the cookie it holds, the one it held before, or none (older cookies are not replayed)",
+            "state keys are SHA-256 truncated to 128 bits (hash compaction)",
+            "one request at a time (no concurrent requests on one session; that is C13's subject)",
+        ],
+    );
+    std::process::exit(code);
+}
